@@ -100,14 +100,32 @@ PROP = dict(
               "{0, nh/2, nh-1, frame_len-1} x silence / floor x 3 amplitudes x 4 thresholds x 2 framings; rejected calls on one object: one "
               "call of L_bad in {1, 5, frame_len-1, frame_len+1} noise samples (must throw) placed {a: before the stream, b: after the "
               "first call, c: right before the call in which the preamble completes} of a 4-frame stream whose preamble ends in frame 2, "
-              "same preambles / offsets / floor / amplitudes / thresholds / framings",
-        thorough="estimators: every len in 128..512 and {1000,1001,2048,5000} x every d in [-len/4, len/4], same letters/noise/fs; "
-                 "delayseq N <= 40; peakloc n 3..8, triples over {-5,-2,-1,0,1,2,3,5}; detector: every offset modulo frame_len for "
-                 "every preamble, preamble ending in frame 1 and in frame 2; reset histories a-d and rejected-call histories (3 placements x 4 L_bad) at the 32 boundary/spread offsets per preamble"),
-    deadline=dict(quick=150, thorough=1500),
+              "same preambles / offsets / floor / amplitudes / thresholds / framings; BIG: finddelay (real, complex), gccphat (fs 48000) "
+              "and 2-channel gccphat on signals of 70000 samples with d in {+-1, +-9999, +-17500} and 80000 samples with d in {+-1, "
+              "+-9999, +-20000} (FFT length 131072), clean and -30 dB noise; delayseq of 100000 samples, d in {0, +-1, 4096, 65535, "
+              "+-65536, -65537, +-99999, 100000, 100001}, real and complex; detector: streams of 140250 (zc139) / 140562 (zc512) "
+              "samples fed 1 and 2 frames per call with the preamble ending on sample 65535, starting on sample 65536 and straddling "
+              "it, silence / floor, thresholds 0.5, 0.9",
+        thorough="estimators: every len in 128..1100 (3 letters x {clean, -40 dB, -30 dB}), "
+                 "len {2047,2048,2049,4095,4096,5000,8191,8192} (1 letter x {clean, -30 dB}) - i.e. every power of two 128..8192 and the "
+                 "lengths just below / above - each with every d in [-len/4, len/4], fs {1, 8000, 48000}, and the BIG lengths of quick; "
+                 "shifts beyond the statement, len/4 < |d| < len/2, for len {128,255,256,257,511,512,513,1000,1023,1024,2047,2048} "
+                 "(finddelay real and complex, clean) wherever the linear cross-correlation peak at d exceeds 4x every other lag; "
+                 "delayseq N <= 40 and the BIG set; peakloc n 3..8, triples over {-5,-2,-1,0,1,2,3,5}; detector: Zadoff-Chu lengths "
+                 "{16,17,23,31,32,33,47,63,64,100,127,128,139,199,255,256,300,511,512} x 2 roots and m-sequences {31,63,127,255,511} "
+                 "(frame lengths 17..725), every offset modulo frame_len (incl. preamble starting on the first sample of a frame), "
+                 "preamble ending in frame 1 and in frame 2, thresholds {0.3,0.4,0.5,0.6,0.7,0.8,0.9,0.95}; reset histories a-d and "
+                 "rejected-call histories (3 placements x 4 L_bad) at the 32 boundary/spread offsets per preamble; long streams as quick"),
+    deadline=dict(quick=150, thorough=3000),
     assumptions=COMMON_ASSUME + [
         "white signal = fixed deterministic letters (sum of 4 LCG uniforms, unit variance); noise = another such letter 30 / 40 dB below",
         "gccphat exists for real data only; its complex peak interpolation is exercised through it",
+        "shifts with len/4 < |d| < len/2 (check finddelay.beyond, thorough) exceed the statement; they are checked only where any "
+        "estimator returning the lag of the largest cross-correlation value must answer d (peak at lag d > 4x the magnitude at every "
+        "other lag of the harness's own linear cross-correlation); other pairs are skipped and counted",
+        "fractional delays are not part of the statement; a band-limited fractional-delay grid for gccphat exists in the harness behind "
+        "-DVERIF_GCCPHAT_FRAC and is NOT enabled: on the pinned tree gccphat's sub-sample refinement moves away from the true delay "
+        "(delay 0.375 samples -> tau = -0.52), reported to the lead as an observation outside C18",
         "peakloc non-cyclic at idx 0 / n-1 has no three samples around the index: not checked (statement silent)",
         "detector reference = header formula with the matched (flipped, conjugated) preamble, normalised by the library's own rms(h) "
         "(its n-1 normalisation belongs to C17); score must be within 1e-9 of the reference and in [0.95, 1]; frame = the argument of one "
